@@ -16,7 +16,9 @@ VALID_SPECS = [
 def byte_cases(rng, n):
     out = [b"", b"\x00", b"\xff", b"\xc3", b"grammar", b"grammar x", b"grammar x\n", b"grammar x;", b"/*", b"\"", b"/", b"//", b"grammar x; a = \"", b"grammar x; A = /", b"\xef\xbb\xbfgrammar x;",
            b"grammar x; start = " + b"(" * 3000, b"grammar x; start = " + b"[" * 500 + b"a" + b"]" * 500 + b";", b"grammar x; start = " + b"a | " * 3000 + b"a;", b"grammar x; " + b"a = b; " * 2000,
-           b"grammar x; start = \"" + b"a" * 5000 + b"\";", b"grammar x; start = A; A = /" + b"a" * 300 + b"/;", b"grammar x;\x00 start = a;", b"grammar \xf0\x9f\x8c\xb5;"]
+           b"grammar x; start = \"" + b"a" * 5000 + b"\";", b"grammar x; start = A; A = /" + b"a" * 300 + b"/;", b"grammar x;\x00 start = a;", b"grammar \xf0\x9f\x8c\xb5;",
+           # runs of millions of skipped tokens (blank lines, comments): the depth of the call stack must not follow their number
+           b"grammar x;\n" + b" \n" * 3000000 + b"start = \"x\";\n", b"grammar x;" + b"//c\n" * 2500000 + b"start = \"x\";", b"grammar x; start = \"x\";" + b"/**/ " * 2500000]
     for _ in range(n):
         k = rng.random()
         if k < 0.25:
